@@ -57,9 +57,7 @@ func (t *RTree) RangeSearch(box Box, callback func(recordID int) error) error {
 				continue
 			}
 			if entry.child == nil {
-				if err := callback(entry.recordID); errors.Is(err, Stop) {
-					return nil
-				} else if err != nil {
+				if err := callback(entry.recordID); err != nil {
 					return err
 				}
 			} else {
@@ -70,7 +68,14 @@ func (t *RTree) RangeSearch(box Box, callback func(recordID int) error) error {
 		}
 		return nil
 	}
-	return recurse(t.root)
+	// Stop (possibly wrapped) has to unwind the whole recursion before it is
+	// converted to nil. Converting it inside recurse would only terminate the
+	// iteration over the current node, and the callback would be invoked
+	// again for entries of the ancestor nodes.
+	if err := recurse(t.root); err != nil && !errors.Is(err, Stop) {
+		return err
+	}
+	return nil
 }
 
 // Extent gives the Box that most closely bounds the RTree. If the RTree is
